@@ -143,7 +143,7 @@ from .basic import C14_CLAUSES as _BASIC_CLAUSES  # noqa: E402
 
 CHECK = PropertyCheck(
     attached=(("rv.drivers.basic", _BASIC_CLAUSES, "medium"), ("rv.drivers.c15", ("exit_code_expected",), "medium")),
-    whole_run_clauses=('results_and_transformed_results_do_not_correspond', 'budget_exceeded', 'evaluation_after_budget_exhausted', 'spurious_TOO_FEW_REALIZATIONS', 'failure_not_reported_by_exit_code', 'spurious_MAX_FUNCTIONS_REACHED'),
+    whole_run_clauses=('functions_withheld_although_enough_realizations_succeeded', 'results_and_transformed_results_do_not_correspond', 'budget_exceeded', 'evaluation_after_budget_exhausted', 'spurious_TOO_FEW_REALIZATIONS', 'failure_not_reported_by_exit_code', 'spurious_MAX_FUNCTIONS_REACHED'),
     prop="C14", trace_module="Trace_C14", drive=drive, model_runs=model_runs,
     rule=("TLC model-checks OptStep.tla (budget respected, TOO_FEW iff a delivered evaluation failed, failing results delivered, "
           "documented exits) for every request pattern x failing evaluation index x failure class {threshold, filter left empty, stddev "
